@@ -194,6 +194,9 @@ func (c C07Reject) frameBytes() []byte {
 		return frame.RawFrame(c.Declared, body)
 	case "zlib-negative", "zlib-oversize", "zlib-below-threshold", "zlib-smaller-than-id":
 		return frame.Compressed(c.ID, payload, true, true, c.Declared)
+	case "zlib-oversize-real":
+		// a frame whose body really inflates to more than the protocol maximum, declared truthfully
+		return frame.Compressed(c.ID, payload, true, false, 0)
 	}
 	panic("c07: class " + c.Class)
 }
@@ -216,7 +219,7 @@ func c07CheckReject(c C07Reject) *pbt.Violation {
 
 func genReject(t *rapid.T) C07Reject {
 	c := C07Reject{ID: genID(t)}
-	c.Class = rapid.SampledFrom([]string{"plain-negative-size", "plain-oversize", "zlib-negative", "zlib-oversize", "zlib-below-threshold", "zlib-smaller-than-id"}).Draw(t, "class")
+	c.Class = rapid.SampledFrom([]string{"plain-negative-size", "plain-oversize", "zlib-negative", "zlib-oversize", "zlib-oversize-real", "zlib-below-threshold", "zlib-smaller-than-id"}).Draw(t, "class")
 	il := idLen(c.ID)
 	switch c.Class {
 	case "plain-negative-size":
@@ -243,6 +246,10 @@ func genReject(t *rapid.T) C07Reject {
 		c.Threshold = rapid.SampledFrom([]int{0, 1, 64, 256}).Draw(t, "thr")
 		c.Len = rapid.IntRange(0, 300).Draw(t, "len")
 		c.Declared = int32(frame.MaxData + rapid.SampledFrom([]int{1, 2, 1000, 1 << 29}).Draw(t, "over"))
+	case "zlib-oversize-real":
+		c.Threshold = rapid.SampledFrom([]int{0, 1, 64, 256}).Draw(t, "thr")
+		c.Len = frame.MaxData - il + rapid.SampledFrom([]int{1, 2, 3, 4097, 1 << 20}).Draw(t, "over")
+		c.Declared = int32(il + c.Len)
 	case "zlib-below-threshold":
 		c.Threshold = rapid.SampledFrom([]int{2, 8, 64, 256, 4096}).Draw(t, "thr")
 		total := rapid.IntRange(il, c.Threshold-1+il).Draw(t, "total")
